@@ -328,6 +328,22 @@ namespace vm
       Geometry::BoundaryFactory<Mesh_> bf(mesh);
       return bf.make_unique();
     }
+    if(spec.has("cellidx"))
+    {
+      // {"name":..,"cellidx":[c..],"deduce":"none|top"}: a set of cells given by index (with or without their closure)
+      const auto ci = spec["cellidx"].ints();
+      Index nc[] = {0, 0, 0, 0};
+      nc[dim] = Index(ci.size());
+      std::unique_ptr<PartType> cp(new PartType(nc, false));
+      auto& cts = tset<dim>(cp->get_target_set_holder(), dim);
+      for(std::size_t i(0); i < ci.size(); ++i)
+      {
+        if(ci[i] < 0 || Index(ci[i]) >= mesh.get_num_elements()) throw std::runtime_error("part specification: cell index out of range");
+        cts[Index(i)] = Index(ci[i]);
+      }
+      if(spec.get_str("deduce", "none") == "top") deduct_top<dim>(*cp, mesh.get_index_set_holder(), dim);
+      return cp;
+    }
     const vj::Value& ents = spec["ents"];
     const bool topo = spec.has("topo") && spec["topo"].as_bool();
     const std::string ded = spec.get_str("deduce", "none");
